@@ -48,7 +48,11 @@ FormHow(e) ==
   ELSE "none"
 RoundHow(e) ==
   IF e.ok /\ RoundTripOK(schema, e.val, e.back) THEN "contract"
-  ELSE IF "D_stdjson_children" \in Dev /\ StdJsonOnPath(schema, Top(e)) THEN "D_stdjson_children"
+  \* encoding/json children: the contract form of such children is not what the codecs read (foreign);
+  \* a codec reading its own output must still bring back the skeleton (presence, oneof member, the
+  \* message's other fields)
+  ELSE IF "D_stdjson_children" \in Dev /\ StdJsonOnPath(schema, Top(e)) /\ (e.foreign \/ (e.ok /\ RoundTripSkelOK(schema, e.val, e.back)))
+       THEN "D_stdjson_children"
   ELSE IF "D_nested_codec_ignored" \in Dev /\ NestedAnnotated(schema, Top(e)) /\ e.foreign THEN "D_nested_codec_ignored"
   ELSE IF "D_enum_annotations_ignored" \in Dev /\ EnumAnnotated(schema, Top(e)) /\ e.foreign THEN "D_enum_annotations_ignored"
   ELSE IF "D_client_no_unwrap" \in Dev /\ e.client /\ \E n \in Reach(schema, {Top(e)}, {}) : HasUnwrap(MsgByName(schema, n)) THEN "D_client_no_unwrap"
